@@ -317,30 +317,28 @@ def fmtFrac (v : Nat) (prec : Nat) : Bytes × Nat :=
   let (acc, v', pr) := go prec v false []
   (if pr then 46 :: acc else acc, v')
 
+/-- the unsigned part of `Duration.format`: `u = |d|` as a `uint64` (`|MinInt64| = 2^63` is fine) -/
+def durBody (u : Nat) : Bytes :=
+  if u < 10 ^ 9 then
+    if u = 0 then str "0s"
+    else if u < 10 ^ 3 then fmtNat u ++ str "ns"
+    else if u < 10 ^ 6 then
+      fmtNat (fmtFrac u 3).2 ++ ((fmtFrac u 3).1 ++ ([0xC2, 0xB5, 115] ++ []))     -- "µs"
+    else
+      fmtNat (fmtFrac u 6).2 ++ ((fmtFrac u 6).1 ++ (str "ms" ++ []))
+  else
+    let secs := (fmtFrac u 9).2
+    let s := fmtNat (secs % 60) ++ ((fmtFrac u 9).1 ++ (str "s" ++ []))
+    let mins := secs / 60
+    if mins > 0 then
+      let m := fmtNat (mins % 60) ++ (str "m" ++ s)
+      let hrs := mins / 60
+      if hrs > 0 then fmtNat hrs ++ (str "h" ++ m) else m
+    else s
+
 /-- `Duration.String` for the `int64` nanosecond count `d` -/
 def durString (d : Int) : Bytes :=
-  let neg := d < 0
-  let u : Nat := d.natAbs                           -- `u = -u` in uint64: |MinInt64| = 2^63 is fine
-  let body : Bytes :=
-    if u < 10 ^ 9 then
-      if u = 0 then str "0s"
-      else if u < 10 ^ 3 then fmtNat u ++ str "ns"
-      else if u < 10 ^ 6 then
-        let (fr, w) := fmtFrac u 3
-        fmtNat w ++ fr ++ [0xC2, 0xB5] ++ str "s"     -- "µs"
-      else
-        let (fr, w) := fmtFrac u 6
-        fmtNat w ++ fr ++ str "ms"
-    else
-      let (fr, secs) := fmtFrac u 9
-      let s := fmtNat (secs % 60) ++ fr ++ str "s"
-      let mins := secs / 60
-      if mins > 0 then
-        let m := fmtNat (mins % 60) ++ str "m"
-        let hrs := mins / 60
-        if hrs > 0 then fmtNat hrs ++ str "h" ++ m ++ s else m ++ s
-      else s
-  if neg && u != 0 then 45 :: body else body
+  if d < 0 then 45 :: durBody d.natAbs else durBody d.natAbs
 
 /-- `leadingInt`: `none` = overflow error -/
 def leadingInt (s : Bytes) : Option (Nat × Bytes) :=
